@@ -1,7 +1,281 @@
-from ..model import AnalysisError
+"""C11 - buffer delay and the can_put / can_get queries are exact (partial).
+
+  R1 can_put() of Buffer and Fleet is *equivalent* to the store's put-grant predicate (under len >= 0);
+  R2 can_get() is equivalent to the store's get-grant predicate |RG| < |A|;
+  R3 the occupancy accessor of every edge equals Σ_H|L| (in-transit + ready);
+  R4 every append to the available list of BufferStore is dominated by `yield timeout(d)` where d is the
+     delay component stored with *that* item; the only other insertion is a cancellation re-inserting an
+     already available item;
+  R5 Buffer.put draws the delay by exactly one get_delay call and stores that value as component 1 of the
+     tuple it hands to the store; get_delay dispatches generator / callable / constant and checks val >= 0.
+"""
+from __future__ import annotations
+
+import ast
+
+from .. import lin, paths, storewalk, tables
+from ..model import AnalysisError, Project, self_attr, walk_no_nested
+from ..report import Result
+from ..tables import RP, RG, RI
+from .common import events_atoms, site, src, sum_lin
+
 PROP = 'C11'
 LEVEL = 'other'
 
+QUERY_EDGES = ('Buffer', 'Fleet')
 
-def run(p, tier):
-    raise AnalysisError('rule module for C11 not implemented yet (fail closed)')
+
+def grant_dnf(p, w, which):
+    """conjunctions of atoms under which the grant function grants (paths reaching the append)."""
+    s = w.store
+    fi = s.methods['_do_reserve_put' if which == 'put' else '_do_reserve_get']
+    L = RP if which == 'put' else RG
+    ex = paths.Explorer(p, s.ci.key, tracked=set(s.lists), atomic={tables.LEVEL_UPDATER, *tables.TRIGGERS}, unroll=1)
+    out = []
+    nonlin = False
+    for pa in ex.paths(fi):
+        if pa.raises:
+            continue
+        idx = next((i for i, e in enumerate(pa.events) if e.kind == 'op' and e.list == L and e.op in ('append', 'insert')), None)
+        if idx is not None:
+            conds = [e for e in pa.events[:idx] if e.kind == 'cond' and not e.d.get('synthetic')]
+            if any(not e.atoms for e in conds):
+                nonlin = True
+            conj = tuple(sorted(set(events_atoms(conds))))
+            if conj not in out:
+                out.append(conj)
+    return [list(c) for c in out], nonlin
+
+
+def run(p: Project, tier: str) -> Result:
+    r = Result(PROP)
+    r.explanation = ('can_put / can_get / occupancy are compared, as linear normal forms, with the predicates of the store they describe '
+                     '(equivalence, not implication); the ready list of BufferStore only receives an item after the timer of that item; '
+                     'the delay is drawn once per put and travels with the item.')
+    r.rule('C11.R1', 'can_put() ≡ store put-grant predicate', 2)
+    r.rule('C11.R2', 'can_get() ≡ store get-grant predicate', 2)
+    r.rule('C11.R3', 'occupancy accessor ≡ Σ held (in transit + ready)', 3)
+    r.rule('C11.R4', 'append to BufferStore.ready_items is dominated by the delay timer of that very item', 2)
+    r.rule('C11.R5', 'Buffer.put draws the delay once and stores it with the item; get_delay dispatch + non-negativity', 3)
+    r.not_decided = ['that the kernel fires the timer exactly at t+d (SimPy guarantee)']
+    r.assumptions = ['Edge.capacity equals the store capacity (C01.O6)']
+    ws = {w.store.ci.key: w for w in storewalk.walks(p, assume_inv=('I1',))}
+    for ci in tables.edge_classes(p):
+        attr, skeys = tables.edge_store_attr(p, ci)
+        w = ws[skeys[0]]
+        s = w.store
+        recv = f'self.{attr}'
+        if ci.name in QUERY_EDGES:
+            for which, rule, mname in (('put', 'C11.R1', 'can_put'), ('get', 'C11.R2', 'can_get')):
+                fi = ci.methods.get(mname)
+                key = f'{ci.label}.{mname}::≡grant'
+                if fi is None:
+                    r.fail(rule, key, f'{mname} missing', src(ci.module), ci.node.lineno)
+                    continue
+                r.analysed_functions.add(fi.key)
+                G, nonlin = grant_dnf(p, w, which)
+                if len(G) != 1 or nonlin:
+                    raise AnalysisError(f'{s.label}: {which}-grant predicate is not a single linear conjunction ({len(G)} granting paths)')
+                g = G[0]
+                ex = paths.Explorer(p, ci.key, tracked=set(s.lists), atomic=set(), recv=recv, split_bool_returns=True, unroll=1)
+                ps = ex.paths(fi)
+                r.paths += len(ps)
+                bad = None
+                for pa in ps:
+                    if pa.raises:
+                        continue
+                    if pa.status != 'return' or pa.st.ret[0] != 'const' or not isinstance(pa.st.ret[1], bool):
+                        bad = (pa, f'a path of {mname} does not return a boolean decided from the store lengths')
+                        continue
+                    atoms = events_atoms(pa.events)
+                    nl = [e.text for e in pa.events if e.kind == 'cond' and not e.d.get('synthetic') and not e.atoms]
+                    if nl:
+                        bad = (pa, f'{mname} tests something that is not a length predicate of its store: {nl[:2]}')
+                        continue
+                    if pa.st.ret[1] is True:
+                        if not lin.implies_all(atoms, g):
+                            bad = (pa, f'{mname}() can return True although a reservation issued now would not be granted '
+                                       f'(grant needs {" ∧ ".join(lin.atom_show(a) for a in g)})')
+                    else:
+                        if not lin.unsat(atoms + list(g)):
+                            bad = (pa, f'{mname}() can return False although a reservation issued now would be granted at once')
+                if bad:
+                    r.fail(rule, key, bad[1], src(fi.module), fi.node.lineno, bad[0].describe())
+                else:
+                    r.ok(rule, key, f'≡ {" ∧ ".join(lin.atom_show(a) for a in g)} on {len(ps)} path(s)', src(fi.module), fi.node.lineno)
+        # R3 occupancy
+        for mname, fi in ci.methods.items():
+            if 'occupancy' not in mname:
+                continue
+            r.analysed_functions.add(fi.key)
+            key = f'{fi.key}::≡Σheld'
+            rets = [n for n in walk_no_nested(fi.node) if isinstance(n, ast.Return) and n.value is not None]
+            want = lin.norm(sum_lin(s.holders, {}, {}))
+            ok = bool(rets)
+            why = 'no return value'
+            for rt in rets:
+                try:
+                    got = lin.norm(lin.linexpr(rt.value, {}, recv))
+                except lin.NonLinear as e:
+                    ok, why = False, f'return value is not a sum of store lengths ({e})'
+                    break
+                if got != want:
+                    ok, why = False, f'returns {lin.show(dict(got))}, the store holds {lin.show(dict(want))}'
+            (r.ok if ok else r.fail)('C11.R3', key, f'= {lin.show(dict(want))}' if ok else why, src(fi.module), fi.node.lineno)
+    check_ready_append(p, ws, r)
+    check_delay_draw(p, r)
+    return r
+
+
+def check_ready_append(p, ws, r):
+    for w in ws.values():
+        s = w.store
+        if s.ci.name != 'BufferStore':
+            continue
+        A = s.avail
+        sites = {}
+        for root, ps in w.roots.items():
+            for pa in ps:
+                if pa.raises:
+                    continue
+                evs = pa.events
+                for i, e in enumerate(evs):
+                    if e.kind == 'op' and e.list == A and e.op in ('append', 'insert'):
+                        key = site(e.fi, e.node, f'ready:{A}.{e.op}') + f'@{root}'
+                        rec = sites.setdefault(key, {'ok': True, 'e': e, 'pa': pa, 'why': ''})
+                        ok, why = judge_ready_insert(evs, i, e, s, root)
+                        if not ok and rec['ok']:
+                            rec.update(ok=False, pa=pa, why=why)
+                        elif ok and not rec['why']:
+                            rec['why'] = why
+        for key, rec in sorted(sites.items()):
+            e = rec['e']
+            if rec['ok']:
+                r.ok('C11.R4', key, rec['why'], src(e.fi.module), e.line)
+            else:
+                r.fail('C11.R4', key, rec['why'], src(e.fi.module), e.line, rec['pa'].describe())
+        # _do_put spawns the timer process for the very item it stored
+        key = f'{s.ci.label}._do_put::spawns-timer-for-stored-item'
+        ok = False
+        for pa in w.roots['put']:
+            if pa.raises:
+                continue
+            app = [e for e in pa.events if e.kind == 'op' and e.list == 'items' and e.op == 'append']
+            sp = [e for e in pa.events if e.kind == 'spawn' and e.func == 'self.move_to_ready_items']
+            ok = len(app) == 1 and len(sp) == 1 and sp[0].args and sp[0].args[0] == app[0].val
+            if not ok:
+                break
+        fi = s.methods['_do_put']
+        (r.ok if ok else r.fail)('C11.R4', key, 'exactly one move_to_ready_items(item) per stored item' if ok else
+                                 'put does not start exactly one timer process for the item it stored', src(fi.module), fi.node.lineno)
+
+
+def judge_ready_insert(evs, i, e, s, root):
+    v = e.val
+    # (a) cancellation: re-insertion of an item taken from reserved_items / the ready list itself
+    if v is not None and v[0] == 'elem' and v[1] in (RI, s.avail):
+        return True, 're-insertion of an already available item (cancellation)'
+    # (b) timer path: value is component 0 of the element popped from items at index(items, <param>)
+    if v is not None and v[0] == 'sub' and v[2] == ('const', 0) and v[1][0] == 'elem' and v[1][1] == 'items':
+        idx = v[1][2]
+        if idx is not None and idx[0] == 'index' and idx[1] == 'items' and idx[2] is not None and idx[2][0] == 'param':
+            par = idx[2]
+            # a preceding `yield timeout(par[1])`
+            for j in range(i - 1, -1, -1):
+                y = evs[j]
+                if y.kind == 'yield' and y.cls == 'timeout':
+                    arg = None
+                    for x in evs[:j]:
+                        if x.kind == 'xcall' and x.d.get('result') == y.value:
+                            arg = x.args[0] if x.args else None
+                    if arg == ('sub', par, ('const', 1)):
+                        return True, f'after `yield timeout({par[1]}[1])` of the same item'
+                    return False, f'the timed wait before the append is on {arg}, not on the delay stored with the item ({par[1]}[1])'
+            return False, 'item becomes ready without waiting for its delay'
+    return False, f'ready list receives {v}: not the delayed item of this timer and not a cancellation re-insertion'
+
+
+def check_delay_draw(p, r):
+    buf = p.cls('edges/buffer.py', 'Buffer')
+    fi = buf.methods.get('put')
+    if fi is None:
+        raise AnalysisError('Buffer.put missing')
+    r.analysed_functions.add(fi.key)
+    ex = paths.Explorer(p, buf.key, tracked=set(), atomic=set(p.methods(buf.key)), proto={'put'}, unroll=1)
+    key = f'{fi.key}::delay-drawn-once-and-stored'
+    bad = None
+    ps = ex.paths(fi)
+    r.paths += len(ps)
+    for pa in ps:
+        if pa.raises:
+            continue
+        draws = [e for e in pa.events if e.kind == 'call' and e.name == 'get_delay']
+        puts = [e for e in pa.events if e.kind == 'pcall' and e.name == 'put' and e.recv == 'self.inbuiltstore']
+        if len(draws) != 1:
+            bad = (pa, f'{len(draws)} get_delay calls per put (expected 1)')
+            continue
+        if draws[0].args != (('self', 'delay'),):
+            bad = (pa, f'get_delay is applied to {draws[0].args}, not to self.delay')
+        if len(puts) != 1:
+            bad = (pa, f'{len(puts)} store puts')
+            continue
+        a = puts[0].args
+        item_par = [x.arg for x in fi.node.args.args if x.arg != 'self'][1]
+        drawn = None
+        # the value of the get_delay call is the fresh symbol created right after the call event
+        ok = len(a) > 1 and a[1][0] == 'tuple' and len(a[1][1]) == 2 and a[1][1][0] == ('param', item_par) \
+            and a[1][1][1][0] == 'sym' and a[1][1][1][1] == 'call:get_delay'
+        if not ok:
+            bad = (pa, f'the store does not receive (item, drawn delay): got {a[1] if len(a) > 1 else a}')
+    (r.ok if not bad else r.fail)('C11.R5', key, 'one get_delay(self.delay); store receives (item, that value)' if not bad else bad[1],
+                                  src(fi.module), fi.node.lineno, *( [bad[0].describe()] if bad else []))
+    for rel, cname in (('edges/edge.py', 'Edge'), ('nodes/node.py', 'Node')):
+        ci = p.cls(rel, cname)
+        gd = ci.methods.get('get_delay')
+        key = f'{rel}::{cname}.get_delay::dispatch'
+        if gd is None:
+            r.fail('C11.R5', key, 'get_delay missing', src(rel), ci.node.lineno)
+            continue
+        r.analysed_functions.add(gd.key)
+        ok, why = get_delay_shape(gd)
+        (r.ok if ok else r.fail)('C11.R5', key, 'generator → next(), callable → call, else constant; asserts val >= 0' if ok else why,
+                                 src(rel), gd.node.lineno)
+
+
+def get_delay_shape(fi):
+    par = [a.arg for a in fi.node.args.args if a.arg != 'self']
+    if not par:
+        return False, 'no delay parameter'
+    d = par[0]
+    top = [n for n in fi.node.body if isinstance(n, ast.If)]
+    if not top:
+        return False, 'no dispatch'
+    n = top[0]
+    t1 = ast.unparse(n.test)
+    if not (f"hasattr({d}, '__next__')" in t1):
+        return False, f'first branch tests `{t1}`, expected hasattr({d}, "__next__")'
+    b1 = [x for x in n.body if isinstance(x, ast.Assign)]
+    if not (b1 and ast.unparse(b1[0].value) == f'next({d})'):
+        return False, 'generator branch does not take next(delay)'
+    var = ast.unparse(b1[0].targets[0])
+    if not (len(n.orelse) == 1 and isinstance(n.orelse[0], ast.If)):
+        return False, 'no callable branch'
+    n2 = n.orelse[0]
+    if ast.unparse(n2.test) != f'callable({d})':
+        return False, f'second branch tests `{ast.unparse(n2.test)}`'
+    b2 = [x for x in n2.body if isinstance(x, ast.Assign)]
+    if not (b2 and ast.unparse(b2[0].value) == f'{d}()' and ast.unparse(b2[0].targets[0]) == var):
+        return False, 'callable branch does not call delay()'
+    b3 = [x for x in n2.orelse if isinstance(x, ast.Assign)]
+    if not (b3 and ast.unparse(b3[0].value) == d and ast.unparse(b3[0].targets[0]) == var):
+        return False, 'constant branch does not return the constant'
+    asserts = [x for x in fi.node.body if isinstance(x, ast.Assert)]
+    okassert = any(ast.unparse(a.test).replace(' ', '') in (f'{var}>=0', f'0<={var}') for a in asserts)
+    raises = [x for x in fi.node.body if isinstance(x, ast.If) and any(isinstance(y, ast.Raise) for y in x.body)
+              and ast.unparse(x.test).replace(' ', '') in (f'{var}<0', f'0>{var}')]
+    if not (okassert or raises):
+        return False, 'no non-negativity check of the drawn value'
+    rets = [x for x in fi.node.body if isinstance(x, ast.Return)]
+    if not (rets and ast.unparse(rets[-1].value) == var):
+        return False, 'does not return the drawn value'
+    return True, ''
